@@ -56,7 +56,7 @@ PLAN = dict(
 CLAIM = dict(
     text="Runtime monitoring of pkcs7 and cfca message handling: honest SignedData / EnvelopedData / EncryptedData / "
          "SignedAndEnvelopedData over the option product parse, verify and decrypt for every intended recipient; every "
-         "single-byte substitution of ~210 (quick) / ~4800 (thorough) signed or signed-and-enveloped messages per configuration either fails or leaves "
+         "single-byte substitution of ~250 (quick) / ~4000 (thorough) signed or signed-and-enveloped messages per configuration either fails or leaves "
          "content, authenticated attributes, signature value, signer key (with a trust store: the signer certificate) unchanged; "
          "strangers, impostor certificates, recipient certificates paired with other keys and other pre-shared keys never get the "
          "content and get an error; the BER normaliser is the identity on every DER element produced and on generated DER trees, "
